@@ -15,7 +15,9 @@ RULE = ("exhaustive exploration of command histories of depth <=3 (quick) / <=4 
         "kernel). states = distinct canonical project states (rows + Merkle digest of cond-out); transitions = commands executed. "
         "invariants: at every experiment spawn the version id exceeds every id recorded in the project and every id handed out "
         "earlier in the invocation, COND_OUT did not exist before the command and holds nothing but Conductor's own empty log files; "
-        "the digest of every recorded version directory is unchanged by every later command"
+        "the digest of every recorded version directory is unchanged by every later command and unchanged between the moment its row "
+        "is committed and the end of the invocation (one task leaves a background process that holds stdout open past the shell's exit)"
+        " The same commands are also run on a variant of the project whose last task lists its dependency twice in two spellings."
         ' One of the three experiments lives in a nested package (//p/q:e0) so that per-package output paths are exercised.')
 ASSUMPTIONS = [
     "'empty when the command starts' is read modulo Conductor's own stdout.log/stderr.log (opened before the spawn in slot mode)",
@@ -25,6 +27,10 @@ CHUNK = 2
 
 COND = 'run_experiment(name="e1", run="./e1.sh", deps=["//p/q:e0"])\nrun_experiment(name="e2", run="./e2.sh", deps=[":e1"], parallelizable=True)\n'
 COND_PQ = 'run_experiment(name="e0", run="./e0.sh")\n'
+# the same project, but e2 names its dependency twice in two spellings (a definition Conductor must refuse; if it does not, the
+# execution invariants below still have to hold for whatever it runs)
+COND_DUP = COND.replace('deps=[":e1"]', 'deps=[":e1", "//:e1"]')
+CONDS = {"std": COND, "dup": COND_DUP}
 BEH_OK = {"//:e1": {"files": {"result": "r1"}}, "//:e2": {"files": {"result": "r2"}}, "//p/q:e0": {"files": {"result": "r0"}}}
 CMDS = ["ok", "ok-j2", "fail-e0", "fail-e1", "fail-e2", "sigint-e2", "restore-old", "restore-new", "gc"]
 STEPS = [0, 1, -5]
@@ -55,6 +61,9 @@ def items(tier):
     for a in letters:
         for b in letters:
             out.append({"prefix": [list(a), list(b)], "depth": 3 if tier == "quick" else 4})
+    for a in ("ok", "ok-j2", "fail-e1"):
+        for b in ("ok", "ok-j2"):
+            out.append({"prefix": [[a, 1], [b, 1]], "depth": 2, "cond": "dup"})
     return out
 
 
@@ -78,10 +87,50 @@ def do_command(root, cmd, clock_t, archives, check):
             beh["//:e2"]["status"] = 9
         if cmd == "sigint-e2":
             beh["//:e2"]["sigint_while_running"] = True
+        # e1 (never in a slot: its output is tee'd by Conductor's own threads) leaves a background process behind that
+        # keeps stdout open and writes a last line after the shell has exited; it exits once Conductor waits for the output
+        beh["//:e1"]["stdout"] = "early\n"
+        beh["//:e1"]["linger"] = "late\n"
         argv = ["run", "//:e2", "--again"] + (["-j", "2"] if cmd == "ok-j2" else [])
         from .. import vk as vkmod
         vk = vkmod.VK(behaviours=explore.behaviours_from_json(beh), project_root=root)
-        res = driver.run_cli(argv, root, vk=vk, git=fakegit.NO_GIT, clock=ck)
+        m = driver.mods()
+        at_commit = {}
+        known = {(r[0], r[1]) for r in rows_before}
+        import conductor.utils.output_handler as ohmod
+        VI, OH = m["vindex"].VersionIndex, ohmod.OutputHandler
+        real_commit, real_finish = VI.commit_changes, OH.finish
+
+        def commit_changes(self_):
+            real_commit(self_)
+            t = None
+            for r in hist.rows(root) or []:
+                if (r[0], r[1]) in known:
+                    continue
+                known.add((r[0], r[1]))
+                if t is None:
+                    t = hist.data_tree(root)
+                d = os.path.join(r[0][2:].split(":")[0], "%s.task.%d" % (r[0].split(":")[1], r[1]))
+                at_commit[d] = hist.subtree(t, d)
+
+        def finish(self_):
+            vk.release_lingering()
+            return real_finish(self_)
+
+        VI.commit_changes, OH.finish = commit_changes, finish
+        try:
+            res = driver.run_cli(argv, root, vk=vk, git=fakegit.NO_GIT, clock=ck, timeout=30)
+        finally:
+            VI.commit_changes, OH.finish = real_commit, real_finish
+        if getattr(res, "timed_out", False):
+            check("run:hang", "cond run did not come back within 30 s")
+        t_end = hist.data_tree(root)
+        for d, sub in at_commit.items():
+            now = hist.subtree(t_end, d)
+            if now != sub:
+                diff = sorted(k for k in set(sub) | set(now) if sub.get(k) != now.get(k))
+                check("recorded:written-after-record", "version directory %s was still being written after its version was recorded "
+                      "(entries that changed after the commit: %s)" % (d, diff[:4]))
         maxrow = max([r[1] for r in rows_before], default=0)
         last = maxrow
         for e in vk.log:
@@ -129,7 +178,7 @@ def run_item(item, tier):
     found = {}
     archives = make_archives()
     letters = [(c, s) for c in CMDS for s in STEPS]
-    root = driver.fresh_project({"COND": COND, "p/q/COND": COND_PQ}, name="c08")
+    root = driver.fresh_project({"COND": CONDS[item.get("cond", "std")], "p/q/COND": COND_PQ}, name="c08")
     os.makedirs(os.path.join(root, "cond-out"), exist_ok=True)
 
     def explore_from(history, clock_t, depth_left):
@@ -149,7 +198,7 @@ def run_item(item, tier):
         c, s = history[-1]
 
         def check(key, what):
-            found.setdefault(key, (what + "  [history %s]" % history, {"history": history}))
+            found.setdefault(key, (what + "  [history %s]" % history, {"history": history, "cond": item.get("cond", "std")}))
 
         do_command(root, c, clock_t, archives, check)
         res["evals"] += 1
@@ -179,7 +228,7 @@ def run_item(item, tier):
 def replay(artefact):
     found = {}
     archives = make_archives()
-    root = driver.fresh_project({"COND": COND, "p/q/COND": COND_PQ}, name="c08")
+    root = driver.fresh_project({"COND": CONDS[artefact.get("cond", "std")], "p/q/COND": COND_PQ}, name="c08")
     os.makedirs(os.path.join(root, "cond-out"), exist_ok=True)
     t = T0
     for c, s in artefact["history"]:
